@@ -26,6 +26,9 @@ def _env_setup():
     os.environ.setdefault("NUMBA_DISABLE_JIT", "1")
     os.environ.setdefault("QUIMB_NUMBA_CACHE", "off")
     os.environ.setdefault("QUIMB_VERIF", "1")
+    # quimb reads its default number of worker threads from the first of QUIMB_NUM_THREAD_WORKERS / QUIMB_NUM_PROCS /
+    # OMP_NUM_THREADS that is set: keep its parallel=True code paths threaded (4 workers) while BLAS stays single-threaded
+    os.environ.setdefault("QUIMB_NUM_THREAD_WORKERS", "4")
     os.environ.setdefault("OMP_NUM_THREADS", "1")
     os.environ.setdefault("OPENBLAS_NUM_THREADS", "1")
     os.environ.setdefault("MKL_NUM_THREADS", "1")
